@@ -133,6 +133,14 @@ def run_case(case):
                 C["exports_after_an_export_in_the_other_mode"] += 1
             except Exception:
                 pass
+        if case.get("prior_export", "other") == "other" and sp["params"]:
+            # ... and its rate constants were changed in place (set_params) since that earlier export
+            import random as _r
+            rr_ = _r.Random(len(sp["reactions"]) * 7919 + len(sp["params"]))
+            ch_ = {k_: float("%.4g" % (float(v_) * rr_.uniform(1.5, 3.0))) for k_, v_ in sp["params"].items() if k_.startswith(("k_", "g_", "h_"))}
+            if ch_:
+                M.set_params(ch_)
+                C["exports_after_in_place_value_changes"] += 1
         try:
             M.write_sbml_model(path, stochastic_model=case["stochastic"])
         except Exception as e:
